@@ -571,3 +571,114 @@ class Gen(object):
     if r.random() < 0.2:
       c['tdiags'] = [self.diagrun() for _ in range(r.choice([1, 2]))]
     return c
+
+
+
+# ---------------------------------------------------------------------------
+# C09: one Test object executed several times
+
+def _facts(rec, running_none):
+  def b(x):
+    return '1' if x else '0'
+  head = ','.join([b(rec.outcome is not None), str(rec.start_time_millis),
+                   '-' if rec.end_time_millis is None else str(rec.end_time_millis),
+                   b(rec.dut_id is not None and rec.dut_id != ''), b(rec.metadata.get('test_name') == 'verif_case'),
+                   b(isinstance(rec.metadata.get('config'), dict)), b(running_none)])
+  ps = []
+  for p in rec.phases:
+    ps.append(','.join([b(p.outcome is not None), b(p.result is not None), b(p.options is not None),
+                        str(p.start_time_millis), '-' if p.end_time_millis is None else str(p.end_time_millis)]))
+  return 'F:' + ';'.join([head] + ps)
+
+
+def run_history(case):
+  """case['runs'] = list of {'overlap': bool}; the same Test object is executed once per entry."""
+  setup()
+  env = make_env()
+  htf, diagnoses_lib = env['htf'], env['diagnoses_lib']
+  from openhtf.util import configuration
+  from openhtf.core import test_descriptor
+  ctx = Ctx()
+  ctx.overlap = None
+  ctx.want_overlap = False
+  if case.get('plugs') is not None:
+    env['plugs'] = PlugsSupport(ctx, env, case['plugs'])
+  holder = {}
+
+  class Overlap(object):
+    """attached to the first phase: its body tries to execute the same Test again"""
+
+    def seen(self, pid, kwargs):
+      if env.get('plugs') is not None:
+        env['plugs'].seen(pid, kwargs)
+      if ctx.want_overlap and ctx.overlap is None:
+        try:
+          holder['test'].execute()
+          ctx.overlap = 'none'
+        except Exception as e:  # pylint: disable=broad-except
+          ctx.overlap = type(e).__name__
+
+    def attach(self, phase, node):
+      if env.get('plugs') is not None:
+        return env['plugs'].attach(phase, node)
+      return phase
+  real_plugs = env.get('plugs')
+  env2 = dict(env)
+  env2['plugs'] = Overlap()
+  nodes = [build_node(n, ctx, env2) for n in case['nodes']]
+  test = htf.Test(*nodes)
+  holder['test'] = test
+  recs, cb_recs, running_none = [], [], []
+  test.add_output_callbacks(recs.append)
+  for j, raises in enumerate(case.get('callbacks') or []):
+    def cb(record, j=j, raises=raises):
+      with ctx.lock:
+        ctx.events.append('eCB%d' % j)
+      cb_recs.append(record)
+      st = test.state
+      running_none.append(st is not None and st.running_phase_state is None)
+      if raises:
+        raise RuntimeError('callback failure')
+    test.add_output_callbacks(cb)
+  test.configure(failure_exceptions=[Failure], stop_on_first_failure=bool(case.get('sof')), name='verif_case')
+  conf = configuration.CONF
+  saved = dict(conf._loaded_values)
+  out_runs = []
+  htf_logger = logging.getLogger('openhtf')
+  try:
+    conf.load(allow_unset_measurements=bool(case.get('allow')), _override=True)
+    if case.get('plugs') is not None:
+      conf.load(plug_teardown_timeout_s=0.05, _override=True)
+    for run in case['runs']:
+      ctx.events, ctx.body_calls, ctx.runif_calls, ctx.inst = [], {}, {}, []
+      ctx.overlap, ctx.want_overlap = None, bool(run.get('overlap'))
+      del recs[:], cb_recs[:], running_none[:]
+      h0 = len(htf_logger.handlers)
+      box = {}
+
+      def _go():
+        try:
+          box['ret'] = test.execute()
+        except BaseException as e:  # pylint: disable=broad-except
+          box['exc'] = e
+      runner = threading.Thread(target=_go, daemon=True)
+      runner.start()
+      runner.join(HANG_S)
+      if runner.is_alive() or 'exc' in box:
+        out_runs.append(['O:HANG' if runner.is_alive() else 'O:RAISED:' + type(box['exc']).__name__])
+        break
+      rec = recs[0] if recs else None
+      toks = canon_record(rec, ctx) if rec is not None else ['O:none']
+      toks.append('X:ret:%d' % (1 if box['ret'] else 0))
+      if rec is not None:
+        toks.append(_facts(rec, all(running_none)))
+      toks.append('CBSAME:%d' % (1 if all(r is rec for r in cb_recs) and len(cb_recs) == len(case.get('callbacks') or []) else 0))
+      toks.append('H:%d' % (len(htf_logger.handlers) - h0))
+      toks.append('S:%d' % (1 if test.state is None else 0))
+      toks.append('TI:%d' % (1 if test in test_descriptor.Test.TEST_INSTANCES.values() else 0))
+      toks.append('V:%s' % (ctx.overlap or '-'))
+      out_runs.append(toks)
+  finally:
+    conf._loaded_values.clear()
+    conf._loaded_values.update(saved)
+  return out_runs
